@@ -211,8 +211,8 @@ fn write_replay(meta: &Meta, original: &Trace, min: &Trace, o: &Outcome, execs: 
 fn env_budget(tier: &str) -> (u64, u64) {
     let scale = env_u64("VERIF_ENV_HISTORIES");
     match tier {
-        "thorough" => (scale.unwrap_or(600_000), scale.unwrap_or(150_000)),
-        _ => (scale.unwrap_or(48_000), scale.unwrap_or(12_000)),
+        "thorough" => (scale.unwrap_or(1_200_000), scale.unwrap_or(300_000)),
+        _ => (scale.unwrap_or(160_000), scale.unwrap_or(48_000)),
     }
 }
 
